@@ -60,3 +60,33 @@ PROPS["C13"] = _stage("C13", ["C13_slow_passes", "C13_slow_delay", "C13_reset_si
                       "slow_close,reset_peer", "toxics/slow_close.go, toxics/reset_peer.go: Pipe; the SO_LINGER/RST clause is kernel behaviour (not modelled at this level)")
 PROPS["C14"] = _stage("C14", ["C14_inactive_is_noop", "C14_inactive_start", "C14_zero", "C14_one", "C14_decision", "C14_measure"],
                       "timeout,noop,limit_data,latency", "toxics/toxic.go: ToxicStub.Run (one draw per start, toxic or noop)")
+
+
+_E4_ASSUME = [
+    "encoding/json is modelled only in the subset the handlers use (object-into-struct decoding with case-insensitive keys, last duplicate wins, unknown keys ignored, null no-op, type errors skip the field and are reported at the end); JSON text syntax is not modelled (the harness classifies a body as invalid with encoding/json itself)",
+    "gorilla/mux routing (404 / 405 before middleware), http.TimeoutHandler, net.Listen / net.ResolveTCPAddr behaviour are environment: address tables are measured on every run and passed to the model",
+    "requests are issued one at a time (concurrent requests: C16)",
+    "listen addresses with port 0 / empty (kernel-chosen port) are outside the address table and not generated",
+]
+
+
+def _api(prop, theorems, extra_assume=()):
+    return {
+        "lean_modules": ["Toxi.Proofs." + prop],
+        "theorems": ["Toxi.Api." + t for t in theorems],
+        "engines": [{"engine": "e4", "args": ["-props", prop], "tag": prop}],
+        "model_scope": "api.go (routes, stopBrowsersMiddleware, all handlers), proxy_collection.go (Add, AddOrReplace, PopulateJson, Remove), toxic_collection.go (AddToxicJson, UpdateToxicJson, RemoveToxic, ResetToxics: configuration part), proxy.go (Update, Differs, start/stop as registry effects)",
+        "assumptions": _E4_ASSUME + list(extra_assume),
+    }
+
+
+PROPS["C05"] = _api("C05", ["C05_browser_403", "C05_unrouted", "step_routed", "C05_unknown_proxy_404", "C05_unknown_toxic_404",
+                            "C05_create_dup_409", "C05_create_bad_400", "C05_create_ok", "C05_default_enabled",
+                            "C05_toxic_defaults", "C05_toxic_rejects", "C05_toxic_dup_409", "C05_read_your_writes",
+                            "C05_listing_order", "addToxic_ok"])
+PROPS["C06"] = _api("C06", ["C06_rejected_unchanged", "C06_populate_validates_first", "C06_exception_update", "C06_legacy_leaks",
+                            "dispatch_unchanged", "updateToxic_fixed_err"],
+                    ["treatment of traffic: the registry state compared contains every toxic's attributes and toxicity; that links run exactly the listed configuration is C04"])
+PROPS["C17"] = _api("C17", ["C17_same_untouched", "C17_idempotent", "C17_differs_replaces", "C17_spelling", "populateLoop_all_match"],
+                    ["'every spelling': theorem C17_spelling is under hypothesis spellingOK on the relation measured from the real Proxy.Differs; the model driver evaluates spellingOK on the measured table in every run (a false value is reported as a broken obligation)",
+                     "live connections surviving a matching populate / dropped by a replacing one: registry-level here (the proxy object is untouched / stopped); socket level belongs to C03"])
